@@ -286,7 +286,7 @@ CHECKS = {
         "status / partial output; second runs after a failed first run; L6: a whole challenge over three corpora through "
         "DefaultTrackPreparator (tasks collected first, as the driver does, or run one at a time). Oracle: if preparation returns, the document has the declared size and the published "
         "content and skip_lines agrees with naive skipping at probe lines; otherwise an exception; the download target never holds a partial "
-        "file; the loop terminates; healthy states/environments must succeed. 2 recorded findings.",
+        "file; the loop terminates; healthy states/environments must succeed. 3 recorded findings.",
         "Trusted: the scripted endpoint (50 lines), the file-system step hooks (80 lines). Process-kill crash model.",
     ),
 }
@@ -312,7 +312,8 @@ ADDENDA = {
     "C12": "Launcher layer: the real ProcessLauncher.stop for 1..3 nodes per host x 5 process fates per node x metrics store present/absent.",
     "C13": "A second node on the host is provisioned from the same composed car object; the car must be unchanged afterwards. Car lists with repeated names.",
     "C14": "L7: a declared uncompressed size that the intact archive does not decompress to; every run has an I/O-step horizon (non-termination is a violation). "
-    "L8: --track-path mode, a corpus of three document sets in every placement.",
+    "L8: --track-path mode, a corpus of three document sets in every placement. L9: corpora published in s3:// and gs:// buckets (net.download_from_bucket over stand-in SDK modules): "
+    "bucket answers x formats x sizes x on-disk states, every crash point of a chunked download. L2 also starts from truncated / too long documents and truncated archives.",
     "C15": "Layer 4 (histories): a local repository reused for two runs, and a managed clone reused while upstream changes its branch set between the runs.",
     "C16": "Outcome alphabet includes dict results without a success flag and None.",
     "C18": "L0 fires the trace callbacks of the real client with aiohttp's own parameter objects (three exception kinds). L4: consecutive composite invocations of one client through the real AsyncExecutor.",
